@@ -65,8 +65,8 @@ def install(reg):
 
     def uuid4(it, a, k):
         # a fresh identifier: an arbitrary string (collision freedom is not assumed here)
-        it.path.dropped.add("uuid.uuid4(): arbitrary fresh string")
-        return VStr(it.path.const("uuid", STR))
+        it.path.dropped.add("uuid.uuid4(): an arbitrary string, the same one the ghost uuid4_str() names (one call per operation)")
+        return VStr(z3.Const("uuid4_str/r", STR))
 
     E["uuid.uuid4"] = VNative(uuid4, "uuid.uuid4")
     def timedelta(it, a, k):
